@@ -238,6 +238,34 @@ def run(ctx):
             st["agreed"] += 1
             st["distinct"].add(("arc", j["base"]))
         st["hist"]["unopenable_archive_" + j["kind"]] += 1
+    # ---- (1e) a directory that can be listed but not searched (mode r--r--r--): its entries are listed, its sub-directory cannot
+    #      be entered - that path is named on stderr, the status is 1, every row outside it is there ----
+    for k in range(2 if ctx.tier == "quick" else 20):
+        sd = os.path.join(ctx.scratch, "shut%d" % k)
+        os.makedirs(os.path.join(sd, "shut", "sub", "deeper"))
+        os.makedirs(os.path.join(sd, "ok", "inner"))
+        for nm in ("shut/f.txt", "shut/sub/x.txt", "shut/sub/deeper/y.txt", "ok/z.txt", "ok/inner/w.txt", "top.txt"):
+            open(os.path.join(sd, nm), "w").close()
+        for root_, dirs_, files_ in os.walk(sd):
+            os.chmod(root_, 0o755)
+        os.chmod(os.path.join(sd, "shut"), 0o444)
+        rb = os.path.basename(sd)
+        exp_rows = sorted(os.path.join(rb, x) for x in ("shut", "shut/f.txt", "shut/sub", "ok", "ok/z.txt", "ok/inner", "ok/inner/w.txt", "top.txt"))
+        for opt in ("", " dfs"):
+            st["evaluations"] += 1
+            q = "path from %s%s into list" % (rb, opt)
+            r = ctx.impl.rows([q], cwd=ctx.scratch, user=NOBODY)
+            rows = sorted(v.decode("utf-8", "surrogateescape") for v in r["values"])
+            err = r["stderr"].decode("utf-8", "replace")
+            case = {"tree": sd, "argv": [q], "uid": NOBODY, "mode_of_shut": "r--r--r--"}
+            if rows != exp_rows:
+                ctx.violation("impl-violates-spec", "a listable but unsearchable directory: rows %s, expected %s" % (rows, exp_rows), input=case)
+            elif r["status"] != 1 or os.path.join(rb, "shut", "sub") not in err:
+                ctx.violation("impl-violates-spec", "the sub-directory that cannot be entered: status %s, stderr %r (expected status 1 and its path on stderr)" % (r["status"], err[:200]), input=case)
+            else:
+                st["agreed"] += 1
+                st["hist"]["unsearchable_parent"] += 1
+        os.chmod(os.path.join(sd, "shut"), 0o755)
     # ---- (1d) "a run in which nothing fails exits with status 0 and an empty standard error" - with `symlinks`, over trees in which
     #      every directory is listable and that hold links to regular files, to directories, dangling links and a self-link ----
     for k in range(4 if ctx.tier == "quick" else 40):
@@ -416,7 +444,7 @@ def run(ctx):
                 ctx.notes.append("F47: witness no longer hangs (status %s); update KNOWN_FINDINGS.json" % r["status"])
     ctx.coverage.update(
         evaluations=st["evaluations"], distinct_nontrivial=len(st["distinct"]), traces_validated_against_impl=st["agreed"],
-        rule="(1c) the archives option over a tree with a mode-000 archive and/or a dangling link named *.zip, as uid 65534: every other row (incl. the members of the readable archive) present, status 0, stderr empty; (1b) two-root searches where one root is itself unlistable (mode 000) or a regular file: status 1, the root named once on stderr, the healthy root complete; (1) random trees with 0-3 directories made unlistable (modes 700/711/000) searched as uid 65534, bfs and dfs, with and without maxdepth: rows must be exactly the entries outside those directories, stderr must name each failing directory, status 1 iff one is in reach; compared with model.Walk (listable flags from the observer) and an independent listing; (1d) fault-free trees with links to files, to directories, dangling links and a self-link searched with `symlinks` (streamed, ordered, aggregated): status 0 and empty stderr; (2) files made unreadable (600) and dangling links: only their own sha1/line_count/is_shebang are empty, sizes and other rows unchanged (hashlib oracle); (2b) COUNT/MIN/MAX/SUM(line_count), plain and grouped, over a directory with one mode-000 file (often the one holding the minimum) and a dangling link equal the aggregates of the readable files; (3) the reader closes stdout after k bytes for k in %s.. x six formats x streamed/ordered/filtered paths (+ aggregate and grouped): status 0 or 1 and no panic text. non-trivial = a run with at least one fault in reach" % offsets[:6],
+        rule="(1c) the archives option over a tree with a mode-000 archive and/or a dangling link named *.zip, as uid 65534: every other row (incl. the members of the readable archive) present, status 0, stderr empty; (1b) two-root searches where one root is itself unlistable (mode 000) or a regular file: status 1, the root named once on stderr, the healthy root complete; (1) random trees with 0-3 directories made unlistable (modes 700/711/000) searched as uid 65534, bfs and dfs, with and without maxdepth: rows must be exactly the entries outside those directories, stderr must name each failing directory, status 1 iff one is in reach; compared with model.Walk (listable flags from the observer) and an independent listing; (1e) a directory that can be listed but not searched (r--r--r--): its sub-directory is named on stderr, status 1, every other row present; (1d) fault-free trees with links to files, to directories, dangling links and a self-link searched with `symlinks` (streamed, ordered, aggregated): status 0 and empty stderr; (2) files made unreadable (600) and dangling links: only their own sha1/line_count/is_shebang are empty, sizes and other rows unchanged (hashlib oracle); (2b) COUNT/MIN/MAX/SUM(line_count), plain and grouped, over a directory with one mode-000 file (often the one holding the minimum) and a dangling link equal the aggregates of the readable files; (3) the reader closes stdout after k bytes for k in %s.. x six formats x streamed/ordered/filtered paths (+ aggregate and grouped): status 0 or 1 and no panic text. non-trivial = a run with at least one fault in reach" % offsets[:6],
         samples=st["samples"], distribution=dict(st["hist"]))
     return ctx.finish(trusted=["which write call the kernel fails after the reader closes the pipe depends on LineWriter buffering; the theorem quantifies over every write instead",
                                "permissions are judged for uid 65534 from the mode bits (files are created by root, so the 'other' bits apply)"])
